@@ -718,13 +718,25 @@ func (cs *childState) execLine(l string) string {
 		if err := b.UnmarshalBinary(g); err != nil {
 			return "err:" + codec.ErrClass(err)
 		}
-		for _, it := range roaring.VerifC06Containers(b) {
+		ops, opN := roaring.VerifC04Ops(b)
+		loaded := b
+		if ops > 0 {
+			// the containers as loaded, before the op log was replayed: decode the bytes in
+			// front of the op log once more
+			oo := roaring.VerifC06OpsOffset(d)
+			g2, free2 := codec.Guard(d[:oo])
+			defer free2()
+			loaded = codec.NewBitmap(ws[1])
+			if err := loaded.UnmarshalBinary(g2); err != nil {
+				return "err:prefix-decode:" + codec.ErrClass(err)
+			}
+		}
+		for _, it := range roaring.VerifC06Containers(loaded) {
 			if !itemWf(it) {
 				return "ok illformed"
 			}
 		}
 		vals := b.Slice()
-		ops, opN := roaring.VerifC04Ops(b)
 		// the decoded bitmap must be usable
 		_ = b.Count()
 		b.Optimize()
